@@ -1,8 +1,30 @@
+import NetaddrVerif.Driver.Cidr
+import NetaddrVerif.Driver.Runtime
+import NetaddrVerif.Driver.C01
 import NetaddrVerif.Driver.C02
+import NetaddrVerif.Driver.C03
+import NetaddrVerif.Driver.C04
+import NetaddrVerif.Driver.C05
+import NetaddrVerif.Driver.C06
+import NetaddrVerif.Driver.C07
+import NetaddrVerif.Driver.C08
+import NetaddrVerif.Driver.C09
+import NetaddrVerif.Driver.C10
+import NetaddrVerif.Driver.C11
+import NetaddrVerif.Driver.C12
+import NetaddrVerif.Driver.C13
+import NetaddrVerif.Driver.C14
+import NetaddrVerif.Driver.C15
+import NetaddrVerif.Driver.C16
+import NetaddrVerif.Driver.C17
+import NetaddrVerif.Driver.C18
+import NetaddrVerif.Driver.C19
+import NetaddrVerif.Driver.C20
 namespace NV.Driver
 
+/-- every property's handler; the first one that recognises the op answers -/
 def handlers : List (String → List String → Option String) :=
-  [C02.handle]
+  [Cidr.handle, Runtime.handle, C01.handle, C02.handle, C03.handle, C04.handle, C05.handle, C06.handle, C07.handle, C08.handle, C09.handle, C10.handle, C11.handle, C12.handle, C13.handle, C14.handle, C15.handle, C16.handle, C17.handle, C18.handle, C19.handle, C20.handle]
 
 def dispatch (op : String) (args : List String) : Option String :=
   handlers.findSome? (fun h => h op args)
